@@ -67,6 +67,7 @@ type exch struct {
 	B string `json:"b"`           // pass mutate reqerr reserr botherr skip hijackreq hijackres
 	O string `json:"o"`           // upstream outcome: ok dialfail drop none
 	N int    `json:"n,omitempty"` // POST body size
+	E string `json:"e,omitempty"` // shape of the modifier error text: "" one line | multi (two errors joined by a line break) | quoted
 }
 
 type connSpec struct {
@@ -80,7 +81,8 @@ type c02Case struct {
 	Stream    string     `json:"stream"`
 	MITM      bool       `json:"mitm"`
 	Transport string     `json:"transport"`
-	RT        string     `json:"rt,omitempty"` // "" = *http.Transport, "clone" = request-cloning wrapper around one
+	RT        string     `json:"rt,omitempty"`  // "" = *http.Transport, "clone" = request-cloning wrapper around one
+	Lst       string     `json:"lst,omitempty"` // "" = plain listener, "shaped" = trafficshape.Listener
 	Conns     []connSpec `json:"conns"`
 }
 
@@ -126,6 +128,15 @@ func genCase(rng *rand.Rand, stream string, idx int, race bool) c02Case {
 	if rng.Intn(3) == 0 {
 		c.RT = "clone"
 	}
+	if rng.Intn(3) == 0 {
+		c.Lst = "shaped"
+	}
+	errKind := func(b string) string {
+		if b != "reqerr" && b != "reserr" && b != "botherr" {
+			return ""
+		}
+		return []string{"", "", "multi", "multi", "quoted"}[rng.Intn(5)]
+	}
 	n := 1 + rng.Intn(4)
 	if rng.Intn(4) == 0 {
 		n = 5 + rng.Intn(4)
@@ -161,6 +172,7 @@ func genCase(rng *rand.Rand, stream string, idx int, race bool) c02Case {
 		}
 		get := func() exch {
 			e := exch{X: newX(), M: "GET", B: pickBeh(rng, allowHij, true)}
+			e.E = errKind(e.B)
 			switch e.B {
 			case "skip", "hijackreq":
 				e.O = "none"
@@ -182,6 +194,7 @@ func genCase(rng *rand.Rand, stream string, idx int, race bool) c02Case {
 			for i := 0; i < nex; i++ {
 				if rng.Intn(100) < 45 || i == nex-1 {
 					e := exch{X: newX(), M: "CONNECT", B: pickBeh(rng, allowHij, false), O: "ok"}
+					e.E = errKind(e.B)
 					if rng.Intn(2) == 0 && i != nex-1 {
 						e.O = "dialfail"
 					}
@@ -198,7 +211,9 @@ func genCase(rng *rand.Rand, stream string, idx int, race bool) c02Case {
 			for i := 0; i < pre; i++ {
 				cs.Ex = append(cs.Ex, get())
 			}
-			cs.Ex = append(cs.Ex, exch{X: newX(), M: "CONNECT", B: pickBeh(rng, allowHij, false), O: "none"})
+			ce := exch{X: newX(), M: "CONNECT", B: pickBeh(rng, allowHij, false), O: "none"}
+			ce.E = errKind(ce.B)
+			cs.Ex = append(cs.Ex, ce)
 			inner := 1 + rng.Intn(4)
 			for i := 0; i < inner; i++ {
 				cs.Ex = append(cs.Ex, get())
@@ -294,6 +309,7 @@ type connOut struct {
 func actionFor(e exch, srv *modx.SrvConn) *modx.Action {
 	a := modx.NewAction()
 	a.Srv = srv
+	a.ErrKind = e.E
 	switch e.B {
 	case "mutate":
 		a.Mutate = true
@@ -433,7 +449,7 @@ func pathClass(e exch) string {
 }
 
 func runCase(r *vh.Run, ca *modx.CA, c c02Case) {
-	g, err := modx.NewRig(ca, modx.RigOpts{MITM: c.MITM, Transport: c.Transport, RoundTripper: c.RT})
+	g, err := modx.NewRig(ca, modx.RigOpts{MITM: c.MITM, Transport: c.Transport, RoundTripper: c.RT, Listener: c.Lst})
 	if err != nil {
 		r.Inconclusive("rig: "+err.Error(), nil)
 		return
@@ -686,6 +702,18 @@ func runCase(r *vh.Run, ca *modx.CA, c c02Case) {
 			}
 			r.Class(fmt.Sprintf("%s/%s/pos%s/%s", xo.typ, e.B, posBucket(xo.pos), e.O))
 			r.Class(fmt.Sprintf("%s/%s/%s/%s", rtk, xo.typ, e.B, e.O))
+			lk := "plain"
+			if c.Lst != "" {
+				lk = c.Lst
+			}
+			r.Class(fmt.Sprintf("listener-%s/%s/%s", lk, xo.typ, e.B))
+			if e.B == "reqerr" || e.B == "reserr" || e.B == "botherr" {
+				ek := "line"
+				if e.E != "" {
+					ek = e.E
+				}
+				r.Class(fmt.Sprintf("errtext-%s/%s/%s/%s", ek, xo.typ, e.B, pathClass(e)))
+			}
 			if q.Ctx == nil {
 				r.Violation("C02:context-missing:"+xo.typ, "no context is retrievable for the request inside the request modifier", wit(nil))
 			}
@@ -768,12 +796,12 @@ func runCase(r *vh.Run, ca *modx.CA, c c02Case) {
 			resErr := e.B == "reserr" || e.B == "botherr"
 			if reqErr {
 				for _, s := range rs {
-					if !modx.HasWarning(s.ReqWarnings, modx.ReqErrText(e.X)) {
+					if !modx.HasWarning(s.ReqWarnings, modx.ErrTokens("req", e.X, e.E)) {
 						r.Violation("C02:warning-request:"+xo.typ, "the request carried no martian Warning for the request modifier's error when the response modifier saw it", wit(map[string]interface{}{"request_warnings": s.ReqWarnings}))
 					}
 				}
 				for _, a := range arrX[e.X] {
-					if !modx.HasWarning(a.Warning, modx.ReqErrText(e.X)) {
+					if !modx.HasWarning(a.Warning, modx.ErrTokens("req", e.X, e.E)) {
 						r.Violation("C02:warning-request:"+xo.typ, "the request reached the origin without a martian Warning for the request modifier's error", wit(map[string]interface{}{"origin_warnings": a.Warning}))
 					}
 				}
@@ -787,7 +815,7 @@ func runCase(r *vh.Run, ca *modx.CA, c c02Case) {
 					r.Violation("C02:modifier-error-aborts:"+xo.typ, fmt.Sprintf("after a modifier error the client received status %d (origin id %q), the exchange without the error yields %d",
 						xo.resp.Status, xo.resp.Header.Get("X-Origin-Id"), want), wit(nil))
 				}
-				if resErr && !modx.HasWarning(xo.resp.Header["Warning"], modx.ResErrText(e.X)) {
+				if resErr && !modx.HasWarning(xo.resp.Header["Warning"], modx.ErrTokens("res", e.X, e.E)) {
 					r.Violation("C02:warning-response:"+xo.typ, "the response reached the client without a martian Warning for the response modifier's error", wit(nil))
 				}
 			}
